@@ -141,9 +141,9 @@ var Texts = map[string]string{
   list c2 { key x; uses g; }
 }`,
 	// two revisions of a submodule with different identities; another module derives from an identity only the older one has
-	"au": `module ida { namespace "urn:ida"; prefix ida; include ids; identity top; }
+	"au": `module ida { namespace "urn:ida"; prefix ida; include ids; identity top; identity lone; }
 module idu { namespace "urn:idu"; prefix idu; import ida { prefix a; } identity d { base a:x; } identity e { base a:top; } leaf r { type identityref { base a:top; } } }`,
-	"sr1": `submodule ids { belongs-to ida { prefix ida; } revision 2020-01-01; identity x { base ida:top; } }`,
+	"sr1": `submodule ids { belongs-to ida { prefix ida; } revision 2020-01-01; identity x { base ida:top; } identity only1 { base ida:lone; } }`,
 	"sr2": `submodule ids { belongs-to ida { prefix ida; } revision 2021-01-01; identity z { base ida:top; } }`,
 	// read from a FILE (Modules.Read) in the directory that also holds its dependency bbf.yang and the broken xf.yang
 	"ibf": `module ibf { namespace "urn:ibf"; prefix ibf; import bbf { prefix b; } leaf l { type b:tf; } }`,
